@@ -965,6 +965,10 @@ def run(ctx):
         "use_before_forms": _hist(f.info["form"] for f in pool.fams if f.kind == "use-before"),
         "use_before_bound_later_fraction": round(sum(1 for f in pool.fams if f.kind == "use-before" and f.info["bound_later"])
                                                  / max(1, per_kind.get("use-before", 0)), 3),
+        "rebind_bound_kinds": _hist(f.info["bound_kind"] for f in pool.fams if f.kind in ("rebind", "dup-let")),
+        "use_after_let_kinds": _hist(f.info["bound_kind"] for f in pool.fams if f.kind == "use-after-let"),
+        "namespace_modules": _hist(f.info["module"] for f in pool.fams if f.kind == "ns-let-import"),
+        "namespace_value_kinds": _hist(f.info["value"] for f in pool.fams if f.kind == "ns-let-import"),
         "inline_literal_kinds": _hist(k for f in pool.fams if f.kind == "outline" for k in f.info["kinds"]),
     })
     ctx.obligation("right-to-left sequencing changes the output in at least 30%% of the nested programs (%d of %d): "
